@@ -390,6 +390,9 @@ func judgePrinter(rep *lib.Report, prop string, c *lib.Ctx, ln *printerLine, res
 	if is("C11") {
 		judgeC11(rep, c, ln, res, kase)
 	}
+	if is("C16") {
+		judgeC16(rep, c, ln, res, kase)
+	}
 	if is("C15") {
 		judgeC15(rep, c, ln, res, currentHook, kase)
 	}
